@@ -33,7 +33,15 @@ MSpec == MInit /\ [][MNext]_mvars
 
 ASSUME \A i \in 1..(2 * NT) : TLCSet(i, 0)
 
+\* The series the application really builds (header field "work", recorded from wpull.application.builder): a pipeline
+\* whose source hands out work from outside - the URL table, the queued files - must be skippable.  Non-skippable
+\* pipelines run completely after a stop (CompleteRuns: that is what clean-up pipelines need); for one that fetches, a stop
+\* arriving before it begins would be followed by all of its work.
+WorkStopsWithTheApplication ==
+  "work" \in DOMAIN Batch[tid] => \A p \in 1..Batch[tid].np : Batch[tid].work[p] => Batch[tid].skp[p]
+
 BadClause ==
+  IF ~WorkStopsWithTheApplication THEN 17 ELSE
   IF ~SeriesOrder THEN 1 ELSE IF ~ItemsInsidePipeline THEN 2 ELSE IF ~ItemOrder THEN 3
   ELSE IF ~NoTakeAfterStop THEN 4 ELSE IF ~NoBeginAfterStop THEN 5 ELSE IF ~SkippedAfterStop THEN 6
   ELSE IF ~NothingAfterFailure THEN 9 ELSE IF ~NoHangObs THEN 12 ELSE IF ~NoCrashObs THEN 13
